@@ -37,9 +37,17 @@ Proof. exact (call_after_history V is_none ops h r shape kw). Qed.
 Theorem C13_partial_application_composes (i i1 : initializer V) (k1 k2 : kwargs V) (shape : list V) :
   NoDup (keys k1) -> NoDup (keys k2) -> no_deprecated V k1 -> no_deprecated V k2 ->
   (shape <> [] \/ k2 <> []) ->
+  (forall v, kw_get "seed"%string k2 = Some v -> is_none v = false) ->   (* a later seed=None keeps the curried seed instead *)
   call is_none i [] k1 = RInit i1 ->
   call is_none i1 shape k2 = call is_none i shape (kw_update k1 k2).
 Proof. exact (call_compose V is_none i i1 k1 k2 shape). Qed.
+
+(* the exception: seed=None passed later does not erase the seed given before (the dictionary rule would) *)
+Theorem C13_seed_none_keeps_curried_seed (i : initializer V) (kw : kwargs V) (c : V) (shape : list V) :
+  not_none is_none (kw_get "seed"%string (i_kwargs i)) = Some c ->
+  not_none is_none (kw_get "seed"%string (kw_update (i_kwargs i) kw)) = None ->
+  kw_get "seed"%string (keep_seed is_none (i_kwargs i) (kw_update (i_kwargs i) kw)) = Some c.
+Proof. exact (keep_seed_restores V is_none (i_kwargs i) (kw_update (i_kwargs i) kw) c). Qed.
 
 (* where "k1 updated by k2" is the dictionary that looks a key up in k2 first *)
 Theorem C13_update_is_override (k1 k2 : kwargs V) (k : String.string) :
@@ -203,6 +211,7 @@ Print Assumptions C13_partial_application_pure.
 Print Assumptions C13_partial_application_later_calls.
 Print Assumptions C13_partial_application_composes.
 Print Assumptions C13_update_is_override.
+Print Assumptions C13_seed_none_keeps_curried_seed.
 Print Assumptions C13_partial_generator_not_shared.
 Print Assumptions C13_shallow_copy_refuted.
 Print Assumptions C13_sr_scaling.
